@@ -1471,6 +1471,26 @@ impl<Front: SocketHandler, L: ListenerHandler> SessionState for Pipe<Front, L> {
             let mut backend = backend.borrow_mut();
             backend.active_requests = backend.active_requests.saturating_sub(1);
         }
+        // A pipe born from an HTTP upgrade owns the backend connection that
+        // `upgrade_mux` took out of the mux router, so `Mux::close` never
+        // sees it: release the connection's bookkeeping here, mirroring
+        // `Connection::pre_close_client_bookkeeping` (the `+1`s are in
+        // `router.rs::connect`). TCP sessions keep their own accounting in
+        // `tcp.rs` and never call this method. `take()` makes it single-shot.
+        if matches!(self.websocket_context, WebSocketContext::Http { .. }) {
+            if let Some(backend) = self.backend.take() {
+                let mut backend = backend.borrow_mut();
+                backend.dec_connections();
+                gauge_add!(names::backend::CONNECTIONS, -1);
+                gauge_add!(names::backend::POOL_SIZE, -1);
+                gauge_add!(
+                    names::backend::CONNECTIONS_PER_BACKEND,
+                    -1,
+                    self.cluster_id.as_deref(),
+                    Some(&backend.backend_id)
+                );
+            }
+        }
     }
 
     fn print_state(&self, context: &str) {
